@@ -73,6 +73,7 @@
 #include <ompl/base/ProblemDefinition.h>
 #include <ompl/base/OptimizationObjective.h>
 #include <ompl/base/objectives/PathLengthOptimizationObjective.h>
+#include <ompl/base/objectives/StateCostIntegralObjective.h>
 #include <ompl/base/goals/GoalStates.h>
 #include <ompl/base/ScopedState.h>
 
@@ -1095,6 +1096,87 @@ int main()
                 {
                     std::cout << op << " throw\n";
                 }
+            }
+            else if (op == "issalloc" && w.pdef && w.space && t.size() == 3 && vp::parseNat(t[2]))
+            {
+                // InformedStateSampler(probDefn, maxNumberCalls, costFunc): the informed sampler comes from the OBJECTIVE's
+                // allocInformedStateSampler (path length -> direct sampler; the base-class default -> rejection sampler)
+                auto pd = std::make_shared<ob::ProblemDefinition>(w.si);
+                for (unsigned k = 0; k < w.pdef->getStartStateCount(); ++k)
+                    pd->addStartState(w.pdef->getStartState(k));
+                pd->setGoal(w.pdef->getGoal());
+                if (t[1] == "pl")
+                    pd->setOptimizationObjective(std::make_shared<ob::PathLengthOptimizationObjective>(w.si));
+                else if (t[1] == "int")
+                    pd->setOptimizationObjective(std::make_shared<ob::StateCostIntegralObjective>(w.si));
+                else
+                {
+                    std::cout << "bad-op\n";
+                    continue;
+                }
+                ob::InformedStateSampler iss(pd, *vp::parseNat(t[2]), []() { return ob::Cost(1.0); });
+                const char *kind = dynamic_cast<ob::PathLengthDirectInfSampler *>(iss.infSampler_.get()) ? "direct"
+                                   : dynamic_cast<ob::RejectionInfSampler *>(iss.infSampler_.get())      ? "rej"
+                                                                                                         : "other";
+                std::cout << "issalloc kind=" << kind << " iters=" << iss.infSampler_->getMaxNumberOfIters()
+                          << " has=" << iss.infSampler_->hasInformedMeasure() << "\n";
+            }
+            else if ((op == "issn" || op == "issg") && w.smp && w.kind == "rv" && t.size() >= 3 && vp::parseNat(t[1]) && vp::parseBits(t[2]))
+            {
+                // InformedStateSampler::sampleUniformNear / sampleGaussian: "not informed" — must be exactly the wrapper's OWN default
+                // state sampler's answer (twin sampler with the same seed) and must not touch the informed sampler (its scripted base
+                // sampler would throw on an empty queue)
+                size_t i = 3;
+                std::vector<double> c;
+                unsigned seed = *vp::parseNat(t[1]);
+                double par = *vp::parseBits(t[2]);
+                if (!takeVec(t, i, w.n, c) || i != t.size() || seed == 0)
+                {
+                    std::cout << "bad-op\n";
+                    continue;
+                }
+                ob::InformedStateSampler iss(w.pdef, []() { return ob::Cost(1.0); }, w.smp);
+                auto twin = w.space->allocDefaultStateSampler();
+                iss.baseSampler_->rng_.setLocalSeed(seed);
+                twin->rng_.setLocalSeed(seed);
+                ob::State *ctr = w.space->allocState(), *a = w.space->allocState(), *b = w.space->allocState();
+                setInformed(w, ctr, c);
+                bool touched = false;
+                g_script.on = true;
+                auto keepq = g_script.q;
+                g_script.q.clear();
+                try
+                {
+                    if (op == "issn")
+                    {
+                        iss.sampleUniformNear(a, ctr, par);
+                        twin->sampleUniformNear(b, ctr, par);
+                    }
+                    else
+                    {
+                        iss.sampleGaussian(a, ctr, par);
+                        twin->sampleGaussian(b, ctr, par);
+                    }
+                }
+                catch (Starved &)
+                {
+                    touched = true;
+                }
+                g_script.on = false;
+                g_script.q = keepq;
+                auto xa = allReals(w, a), xb = allReals(w, b);
+                bool fwd = !touched, within = true;
+                for (unsigned k = 0; k < w.n; ++k)
+                {
+                    if (bits(xa[k]) != bits(xb[k]))
+                        fwd = false;
+                    if (op == "issn" && std::fabs(xa[k] - c[k]) > par && xa[k] > w.lo && xa[k] < w.hi)
+                        within = false;
+                }
+                std::cout << op << " fwd=" << fwd << " within=" << within << " inb=" << w.space->satisfiesBounds(a) << "\n";
+                w.space->freeState(ctr);
+                w.space->freeState(a);
+                w.space->freeState(b);
             }
             else if (op == "ctor" && t.size() >= 8)
             {
